@@ -19,9 +19,9 @@ CLAIMS["C07"] = (
     "3/C07",
 )
 CLAIMS["C08"] = (
-    "Lean 4 proofs about the moving-window models (score definition, `where` = maximal runs) + exact model/code correspondence with hash change scores + reversal check on built-in scores",
-    "Theorems mw_scores_def and where_exactly_maximal_runs ((a,b) in where(ind) iff [a,b) is a maximal run of True) in Skc/Props/C08.lean for all inputs; further theorems (peak-of-run, reversal) are added as the development grows - see the evidence file.",
-    "float scores of built-in change scores are compared under tolerance for the reversal clause and only where decision margins exist; the model is tied by exact correspondence on integer landscapes.",
+    "Lean 4 proofs about the moving-window models (score definition, `where` = maximal runs in scan order, peak-of-run soundness and completeness, strict order, reversal of scores) + exact model/code correspondence with hash change scores + reversal check on built-in scores",
+    "Theorems mw_scores_def, where_exactly_maximal_runs, mw_changepoint_is_peak_of_run (every changepoint is the position of the maximum of a maximal above-threshold run of >= min_detection_interval positions), mw_every_long_run_detected, mw_changepoints_strictly_increasing, mw_scores_reversal (score at t of the reversed series = score at n-t) in Skc/Props/C08.lean, for all score functions, n, bandwidths, thresholds.",
+    "the mapping of changepoints t -> n-t under reversal needs unique run maxima and is tied by the oracle (compared only where all above-threshold scores are separated by a margin), not proved; float scores of built-in change scores are compared under tolerance; the model is tied by exact correspondence on integer landscapes incl. tuned thresholds.",
     "3/C08",
 )
 CLAIMS["C09"] = (
@@ -51,7 +51,7 @@ CLAIMS["C06"] = (
 CLAIMS["C04"] = (
     "Lean 4 corollaries of the algorithm theorems (well-formedness of every model output) + exact correspondences of the algorithm models + structure predicate on all seven detectors",
     "Theorems pelt_changepoints_wellformed, capa_anomalies_wellformed, sbs_changepoint_in_range (+ sbs_min_gap of C07), cbs_anomaly_strictly_inside (+ disjointness of C09), mw_above_threshold_in_band, validFrom_elementwise, validAnoms_elementwise in Skc/Props/C04.lean: for all inputs the models' changepoints / anomalies satisfy the ordering, range and length limits the property states.",
-    "pandas-level formatting (RangeIndex, int64, left-closed IntervalIndex, labels 1..K) and StatThresholdAnomaliser (C17) are observed by the harness, not modelled; strict monotonicity of moving-window changepoints across runs follows from `where` returning disjoint runs in scan order, which is tied by correspondence (C08), the Lean theorem covers the band only.",
+    "pandas-level formatting (RangeIndex, int64, left-closed IntervalIndex, labels 1..K) and StatThresholdAnomaliser (C17) are observed by the harness, not modelled; strict monotonicity of moving-window changepoints is mw_changepoints_strictly_increasing (C08).",
     "3/C04",
 )
 CLAIMS["C16"] = (
